@@ -43,7 +43,6 @@ FROZEN_ASSUMED = [('src/parallel.rs', "impl<'t, D: Distance> ImmutableLeafs<'t, 
 BUILD_CHAIN = {'tmp_nodes': ['TmpNodesC::put', 'TmpNodesC::remap', 'TmpNodesC::remove'], 'trees_new': ['ImmutableTrees::new', 'ImmutableTrees::sub_tree_from_id', 'ImmutableTrees::empty', 'NodeId::unwrap_tree'], 'insert_glue': ['Writer::insert_items_in_tree'], 'insert_driver': ['Writer::insert_items_in_current_trees'], 'iict_lib': None,
                'incr_driver': ['Writer::incremental_index_large_descendants'], 'incr_lib': None,
                'build': ['Writer::build', 'meta_roots_'], 'build_lib': None, 'inv_lib': None,
-               'store': ['Writer::add_item', 'Writer::append_item', 'Writer::del_item', 'Writer::clear'],
                'builder_opts': ['BuildOption::default', 'Writer::builder', 'ArroyBuilder::n_trees', 'ArroyBuilder::split_after', 'ArroyBuilder::available_memory', 'ArroyBuilder::build']}
 TMP = "impl<'a, DE: BytesEncode<'a>> TmpNodes<DE>"
 BUILD_ASSUMED = [('src/writer.rs', 'impl<D: Distance> Writer<D>', 'pre_process_items'),
@@ -53,7 +52,7 @@ BUILD_TRUSTED = [
     'A5 (build-level, not proved): while the id generator of a build is alive, every tree id of the index in the database was present when the generator was created or was issued by it; hence an id it returns is not a tree key of the current view (ConcurrentNodeIds::next_v_) nor of the view a staging area was created under (TmpNodes::taken, rules R12/R12b/R14); axiom_generator_covers ties this to the set passed to ConcurrentNodeIds::new',
     'A6: rule R11 renders the rayon map of insert_items_in_tree as the sequential loop over the same closure body (proved: one result per root, each satisfying the PROVED contract of insert_items_in_file for a fresh staging area; errors propagate); what the interleaving adds is assumed as axiom_distinct_staging: ids handed to different staging areas during one call are different (the sequential restatement of C13). pre_process_items only rewrites item leaves of the index in place (no key added or removed, encoded length kept); used_tree_node (A1) reports every tree id of the index (assumed, drift-guarded). ImmutableTrees::new / sub_tree_from_id / empty are PROVED in unit trees_new (every tree node of the index / exactly the subtree, with the database values; the (len, ptr) pairs are abstracted as the mapped bytes, the unsafe slice reconstruction in ImmutableTrees::get stays assumed); callers additionally use a ghost-only name db_has for the tree ids the database held when the view was frozen',
     'ghost parameter: incremental_index_large_descendants receives the roots of the forest as a ghost argument (//@ghostparam, //@ghostarg Ghost(roots@) at its call in build); erased at run time',
-    'precondition of build: index_inv (tree keys hold tree nodes, leaves have one length, and when metadata exists: the forest it records is well formed over metadata.items with buckets within the capacity, and an id without an updated mark is stored iff the trees hold it); build re-establishes it (built ==> index_inv); the contracts of add_item, append_item, del_item and clear (unit store) state that a successful call preserves it (the new leaf having the common encoded length is a hypothesis: a codec fact); unit inv_lib has the lemmas, also for prepare_changing_distance (its postcondition is literally the precondition of lemma_inv_no_forest), rejected calls and operations on other indexes; the induction over a whole history is the chaining of these per-operation contracts, not a mechanised induction over a history datatype',
+    'precondition of build: index_inv (tree keys hold tree nodes, leaves have one length, and when metadata exists: the forest it records is well formed over metadata.items with buckets within the capacity, and an id without an updated mark is stored iff the trees hold it); build re-establishes it (built ==> index_inv); unit inv_lib proves that the exact post-states which unit store / writer_scans prove for add_item, append_item, del_item, clear, prepare_changing_distance (its postcondition is literally the precondition of lemma_inv_no_forest), rejected calls and operations on other indexes preserve it (the new leaf having the common encoded length is a hypothesis there: a codec fact); the composition over a history is by matching those post-states with the lemma preconditions, not one mechanised induction (stating the preservation inside the store contracts was tried and withdrawn: the proof hints it needs made four seeded changes of those functions undecided instead of detected)',
 ]
 PROPS = {
     'C01': {
